@@ -21,9 +21,10 @@ def gen(R):
     legacy = R.bool()
     multi_open = any(f["id"] == "C12-new-multi-name-service" for f in core.open_findings(PROP))
     sim = Model(legacy, variant_multi_nothing=multi_open)
+    maker = {c: True for c in CTXS}  # the maker service lives until the context's file is rewritten
     for _ in range(R.int(3, 18)):
         ctx = R.choice(CTXS[:nctx])
-        k = R.weighted([(6, "define"), (2, "delete"), (1, "rebind"), (7, "call"), (1, "reload_empty"), (1, "reload_race"), (2, "outgoing"), (3, "script_call")])
+        k = R.weighted([(6, "define"), (2, "delete"), (1, "rebind"), (7, "call"), (1, "reload_empty"), (1, "reload_race"), (2, "outgoing"), (3, "script_call"), (1, "make_inner"), (1, "drop_inner"), (2, "call_overlap")])
         if k == "define":
             g += 1
             form = R.weighted([(3, "default"), (4, "one"), (2, "multi"), (2, "two_decs")])
@@ -36,7 +37,7 @@ def gen(R):
             else:
                 two = R.shuffle(NAMES)[:2]
                 decs = [[two[0]], [two[1]]]
-            op = {"op": "define", "ctx": ctx, "fn": R.choice(FUNCS), "gen": g, "decs": decs, "sr": R.choice([None, None, "optional", "only"])}
+            op = {"op": "define", "ctx": ctx, "fn": R.choice(FUNCS), "gen": g, "decs": decs, "sr": R.choice([None, None, "optional", "only"]), "slow": R.bool(1, 3)}
             names = [n for d in decs for n in (d if d else [f"pyscript.{op['fn']}"])]
             reg = sim.registered()
             foreign = [n for n in names if n in reg and any(x[1] != ctx for x in reg[n])]
@@ -60,12 +61,32 @@ def gen(R):
             ops.append({"op": "call", "name": name, "data": data, "rr": R.bool(1, 3)})
         elif k == "reload_empty":
             sim.funcs[ctx] = {}
+            maker[ctx] = False
             ops.append({"op": "reload_empty", "ctx": ctx})
         elif k == "reload_race":
             # the context's file is reloaded with one function declaring two alias names; while that declaration is still
             # being started (the service-description lookup is held by the harness) the file is emptied and reloaded again
             sim.funcs[ctx] = {}
+            maker[ctx] = False
             ops.append({"op": "reload_race", "ctx": ctx, "suspend": R.choice([3, 10, 40]), "sr": R.choice([None, "optional"])})
+        elif k == "make_inner" and maker[ctx]:
+            # a function declaring a service is created while the context's maker service runs, and kept in a dict
+            g += 1
+            reg = sim.registered()
+            free = [n for n in NAMES if not any(x[1] == ctx for x in reg.get(n, []))]  # no second declaration inside one context (open finding)
+            if free:
+                name = R.choice(free)
+                op = {"op": "make_inner", "ctx": ctx, "name": name, "gen": g}
+                sim.define({"ctx": ctx, "fn": f"inner{g}", "gen": g, "decs": [[name]], "sr": None})
+                ops.append(op)
+        elif k == "drop_inner":
+            for fn in [f for f in sim.funcs[ctx] if f.startswith("inner")]:
+                sim.remove(ctx, fn)
+            ops.append({"op": "drop_inner", "ctx": ctx})
+        elif k == "call_overlap" and sim.registered():
+            # two calls of one service overlap in time (the first is suspended when the second arrives)
+            name = R.choice(sorted(sim.registered()))
+            ops.append({"op": "call_overlap", "name": name, "data": [{"x": 1}, {"y": 2, "z": [3]}]})
         elif k == "script_call" and sim.registered():
             # script code calls a service that pyscript itself declares (service.call or DOMAIN.SERVICE(**kw)); a service
             # that only supports responses returns its result also without return_response (the call implies it)
@@ -83,6 +104,14 @@ def gen(R):
     return {"legacy": legacy, "nctx": nctx, "ops": ops}
 
 
+def maker_src(ctx):
+    """Initial file of a context: a service that, while it runs, creates a function declaring a service and keeps it."""
+    c = ctx.split(".")[1]
+    return (f"x = 1\nzz_keep = {{}}\n@service('pyscript.zz_make_{c}')\ndef zz_make(name=None, gen=None):\n"
+            f"    @service(name)\n    def zz_inner(context=None, **kw):\n        vrec('svc', {ctx!r}, 'inner' + str(gen), gen, kw)\n"
+            f"        return {{'gen': gen, 'keys': sorted(kw)}}\n    zz_keep[gen] = zz_inner\n")
+
+
 def define_src(op):
     L = []
     for names in op["decs"]:
@@ -93,8 +122,11 @@ def define_src(op):
     L += [
         f"def {op['fn']}(context=None, **kw):",
         f"    vrec('svc', {op['ctx']!r}, {op['fn']!r}, {op['gen']}, kw)",
-        f"    return {{'gen': {op['gen']}, 'keys': sorted(kw)}}",
     ]
+    if op.get("slow"):
+        # the run is suspended for a while and then reports its own arguments again (overlapping calls must not mix)
+        L += ["    task.sleep(0.5)", f"    vrec('svc_end', {op['ctx']!r}, {op['fn']!r}, {op['gen']}, kw)"]
+    L += [f"    return {{'gen': {op['gen']}, 'keys': sorted(kw)}}"]
     return "\n".join(L)
 
 
@@ -153,7 +185,7 @@ async def execute(case):
     from custom_components.pyscript.function import Function
     from custom_components.pyscript.global_ctx import GlobalContextMgr
 
-    files = {f"{c.split('.')[1]}.py": "x = 1\n" for c in CTXS[: case["nctx"]]}
+    files = {f"{c.split('.')[1]}.py": maker_src(c) for c in CTXS[: case["nctx"]]}
     async with l3.Integ(files, legacy=case["legacy"]) as it:
         got = []
 
@@ -208,6 +240,38 @@ async def execute(case):
                 if op["op"] == "outgoing":
                     step["delivered"] = got[before:]
                     step["result"] = gctx.global_sym_table.get("_out") if op["ctl"].get("return_response") else None
+            elif op["op"] == "make_inner":
+                c = op["ctx"].split(".")[1]
+                step["made"] = it.hass.services.has_service("pyscript", f"zz_make_{c}")
+                if step["made"]:
+                    await it.hass.services.async_call("pyscript", f"zz_make_{c}", {"name": op["name"], "gen": op["gen"]}, blocking=True)
+                await it.settle(1)
+            elif op["op"] == "drop_inner":
+                gctx = GlobalContextMgr.get(op["ctx"])
+                keep = gctx.global_sym_table.get("zz_keep") if gctx else None
+                if isinstance(keep, dict):
+                    keep.clear()
+                import gc as _gc
+
+                _gc.collect()
+                await it.settle(2)
+            elif op["op"] == "call_overlap":
+                dom, name = op["name"].split(".")
+                n0 = len(it.records)
+                step["had"] = it.hass.services.has_service(dom, name)
+                if step["had"]:
+                    from homeassistant.core import SupportsResponse as SR
+
+                    rr = it.hass.services.supports_response(dom, name) != SR.NONE
+                    t1 = asyncio.ensure_future(it.hass.services.async_call(dom, name, dict(op["data"][0]), blocking=True, return_response=rr))
+                    await asyncio.sleep(0.2)
+                    t2 = asyncio.ensure_future(it.hass.services.async_call(dom, name, dict(op["data"][1]), blocking=True, return_response=rr))
+                    res = await asyncio.gather(t1, t2, return_exceptions=True)
+                    step["resps"] = [r if not isinstance(r, BaseException) else type(r).__name__ for r in res]
+                    step["rr"] = rr
+                await it.settle(1)
+                step["runs"] = [list(a[1:4]) + [dict(a[4])] for vt, a, kw in it.records[n0:] if a[0] == "svc"]
+                step["ends"] = [list(a[1:4]) + [dict(a[4])] for vt, a, kw in it.records[n0:] if a[0] == "svc_end"]
             elif op["op"] == "reload_empty":
                 await it.reload(op["ctx"])
             elif op["op"] == "reload_race":
@@ -299,6 +363,28 @@ def judge(case, trace, leak, variant=False):
         elif op["op"] in ("reload_empty", "reload_race"):
             m.funcs[op["ctx"]] = {}
             m.bound[op["ctx"]] = set()
+        elif op["op"] == "make_inner":
+            if step.get("made"):
+                m.define({"ctx": op["ctx"], "fn": f"inner{op['gen']}", "gen": op["gen"], "decs": [[op["name"]]], "sr": None})
+        elif op["op"] == "drop_inner":
+            for fn in [f for f in m.funcs[op["ctx"]] if f.startswith("inner")]:
+                m.remove(op["ctx"], fn)
+        elif op["op"] == "call_overlap":
+            reg = m.registered().get(op["name"])
+            if bool(reg) != step["had"]:
+                return {"i": step["i"], "what": "has_service", "exp": bool(reg), "obs": step["had"]}
+            if reg:
+                _, c, fn, g, sr = sorted(reg)[-1]
+                datas = [dict(d, trigger_type="service") for d in op["data"]]
+                exp_runs = [[c, fn, g, d] for d in datas]
+                if step["runs"] != exp_runs:
+                    return {"i": step["i"], "what": "overlap-run", "exp": exp_runs, "obs": step["runs"]}
+                if step["ends"] and sorted(step["ends"], key=str) != sorted(exp_runs, key=str):
+                    return {"i": step["i"], "what": "overlap-run-state-mixed-up", "exp": exp_runs, "obs": step["ends"]}
+                if step.get("rr"):
+                    exp_resps = [{"gen": g, "keys": sorted(d)} for d in datas]
+                    if step["resps"] != exp_resps:
+                        return {"i": step["i"], "what": "overlap-response", "exp": exp_resps, "obs": step["resps"]}
         elif op["op"] == "script_call":
             reg = m.registered().get(op["name"])
             if reg:
@@ -351,7 +437,7 @@ class C12(ModelCheck):
         "context's (empty) file, call a service with generated data (with return_response where supported), and "
         "outgoing calls from script code to a recording service through service.call and DOMAIN.SERVICE(**kw) with "
         "blocking / return_response controls, and calls from script code to the services pyscript itself declares (a "
-        "response-only service returns its result also without return_response); finally unload. Oracle: a model of declarations and owners - after every "
+        "response-only service returns its result also without return_response), functions declaring a service that are created while a maker service of the context runs (kept in a dict, dropped again), and two calls of one service that overlap in time (a third of the functions sleep and report their arguments again afterwards); finally unload. Oracle: a model of declarations and owners - after every "
         "step the registered names equal the declared (non-rejected) ones, a call runs the latest live definition with "
         "data + trigger_type='service' and returns its result, a name owned by another context is not taken over, the "
         "recording service receives exactly the given parameters, nothing is left after unload. Non-trivial = a "
@@ -364,6 +450,9 @@ class C12(ModelCheck):
 
     def gen(self, R):
         return gen(R)
+
+    def regress_cases(self):
+        return self.fixed_regress()
 
     def valid(self, case):
         multi_open = any(f["id"] == "C12-new-multi-name-service" for f in core.open_findings(PROP))
